@@ -1,4 +1,4 @@
-CONSTANTS NSlots = 4  PerSlot = 2  Params = {"/i", "/n", "/f", "/l", "/t"}  PosValues = {0, 1, 2, 4, 6, 8, 9}  NegValues = {1}  PosGains = {100, 50, 200}  NegGains = {100}  PosOffsets = {0, 25}  NegOffsets = {25}  CCs = {1, 2, 3, 127, 130}  MaxOps = 1000000  Bug = "none"
+CONSTANTS NSlots = 4  PerSlot = 2  Params = {"/i", "/n", "/f", "/l", "/t", "/c", "/m"}  PosValues = {0, 1, 2, 4, 6, 8, 9}  NegValues = {1}  PosGains = {100, 50, 200}  NegGains = {100}  PosOffsets = {0, 25}  NegOffsets = {25}  CCs = {1, 2, 3, 127, 130}  MaxOps = 1000000  Bug = "none"
 INIT SimInit
 NEXT SimNext
 CONSTRAINT Export
